@@ -229,10 +229,21 @@ def name_domain(nodes, extra=()) -> List[str]:
     return sorted(dom)
 
 
-def domains_by_scrutinee(nodes) -> Dict[str, set]:
+def domains_by_scrutinee(nodes, const_of=None) -> Dict[str, set]:
     """String constants grouped by the (normalised) non-constant side they are compared
-    with; substrings are added for `x in "<str>"` containers; every domain gets FRESH."""
+    with; substrings are added for `x in "<str>"` containers; every domain gets FRESH.
+    `const_of(node)` (optional) returns the value of a constant-evaluable operand (a named
+    module-level table, say) or None: such an operand is a constant side, never a scrutinee."""
     doms: Dict[str, set] = {}
+
+    def strings_of(v):
+        if isinstance(v, str):
+            return {v}
+        if isinstance(v, (tuple, list, set, frozenset)):
+            return {x for x in v if isinstance(x, str)}
+        if isinstance(v, dict):
+            return {x for x in v if isinstance(x, str)}
+        return set()
     for root in nodes:
         for n in ast.walk(root):
             if not isinstance(n, ast.Compare):
@@ -243,8 +254,14 @@ def domains_by_scrutinee(nodes) -> Dict[str, set]:
                 for scrut, other in ((l, r), (r, l)):
                     if not isinstance(scrut, (ast.Name, ast.Subscript, ast.Attribute)):
                         continue
-                    consts = {c.value for c in ast.walk(other)
-                              if isinstance(c, ast.Constant) and isinstance(c.value, str)}
+                    if const_of is not None and not isinstance(scrut, ast.Constant) and const_of(scrut) is not None:
+                        continue
+                    ov = const_of(other) if const_of is not None and not isinstance(other, ast.Constant) else None
+                    if ov is not None:
+                        consts = strings_of(ov)
+                    else:
+                        consts = {c.value for c in ast.walk(other)
+                                  if isinstance(c, ast.Constant) and isinstance(c.value, str)}
                     if not consts:
                         continue
                     d = doms.setdefault(norm(scrut), set())
@@ -252,6 +269,8 @@ def domains_by_scrutinee(nodes) -> Dict[str, set]:
                     if isinstance(op, (ast.In, ast.NotIn)) and scrut is l and isinstance(other, ast.Constant) \
                             and isinstance(other.value, str):
                         d |= substrings(other.value)
+                    elif isinstance(op, (ast.In, ast.NotIn)) and scrut is l and isinstance(ov, str):
+                        d |= substrings(ov)
     for d in doms.values():
         d.add(FRESH)
     return doms
